@@ -121,6 +121,9 @@ type Run struct {
 	closed      bool
 }
 
+// Thorough is set by the driver for the thorough tier (scenarios may scale bounds with it).
+var Thorough bool
+
 var active atomic.Pointer[Run]
 
 func init() {
